@@ -59,7 +59,7 @@ func newObs(c *expCase) *expObs {
 		Docs: []docObs{}, Nodes: []PNode{}, Entries: []entryObs{}, Loads: []AURL{}, LoadsS: []string{}, LoadOK: []bool{},
 		Concrete: []string{}, DocURLs: []string{}, FailURL: c.FailURL, Preload: c.Preload, Det: true, RootSame: true, OptsSame: true,
 		Collide: []bool{}, Events: [][]string{}, Cached: []AURL{}, Cache: c.Cache, DefSame: true, SameFull: true,
-		Names: c.Names, Spell: c.Spell, Reps: c.Reps, Site: c.Site}
+		Names: c.Names, Spell: c.Spell, Reps: c.Reps, Site: c.Site, Flags: c.Flags}
 	if c.Entry == "SkipThenFull" {
 		obs.Opts.Skip = false // what is judged is the final, full expansion
 	}
@@ -221,7 +221,7 @@ func runOne(c *expCase, cc *concrete, docBytes map[string][]byte, refuse map[str
 		_ = json.Unmarshal(docBytes[cc.urls[d]], &v)
 		a, _ := parseAURL(cc.urls[d])
 		obs.Docs = append(obs.Docs, docObs{URL: a, Dead: refuse[cc.urls[d]]})
-		p.document(d+1, v, false)
+		p.document(d+1, v, cc.whole[d])
 	}
 	inputCount := len(p.nodes)
 	byPath := map[string]int{}
